@@ -202,6 +202,112 @@ func chanBody(kind, who string, pipeCap int, traffic bool) func(x *harness.X) {
 	}
 }
 
+// stalledPeerBody: the peer application consumes nothing, so its receiver is stuck on the
+// first data envelope and stops reading the connection; the server then ends the session
+// with a one-second budget, as Server.handleChannel does. The farewell cannot be delivered,
+// but the terminating call must still end the session on its own side and close its connection.
+func stalledPeerBody(kind, how string) func(x *harness.X) {
+	return func(x *harness.X) {
+		lib.Reset()
+		s := &st{kind: kind, who: "server-" + how + "/peer-not-consuming"}
+		x.Vars["st"] = s
+		buf := 64
+		if kind == "inproc" {
+			buf = rt.Choose(2)
+		}
+		ct, stp, cconn, sconn := lib.Transports(kind, buf, nil)
+		s.cconn, s.sconn = cconn, sconn
+		cc, sc, err := lib.EstablishedPair(ct, stp, 0)
+		if err != nil {
+			x.Failf("setup", "%v", err)
+			rt.Stop()
+		}
+		go drain(x, "server", sc, &s.scStreams, &s.srvConsumerEnded)
+		mctx, mc := context.WithTimeout(context.Background(), 20*time.Second)
+		defer mc()
+		if err := sc.SendMessage(mctx, lib.Msg("s-1", "nobody will consume this")); err != nil {
+			x.Failf("setup", "first message: %v", err)
+			rt.Stop()
+		}
+		rt.Quiesce()
+		rt.BeginExplore()
+		if how == "close" {
+			// the application closes its channel while one of its own sends is blocked on the
+			// peer: Close must return, and release the blocked sender
+			go func() {
+				sctx, c3 := context.WithTimeout(context.Background(), 40*time.Second)
+				defer c3()
+				err := sc.SendMessage(sctx, lib.Msg("s-2", strings.Repeat("x", 300)))
+				x.Obs("blocked send returned err=%v", err != nil)
+			}()
+			rt.Quiesce()
+		}
+		go func() {
+			fctx, c2 := context.WithTimeout(context.Background(), time.Second)
+			defer c2()
+			if how == "close" {
+				s.initErr = sc.Close()
+			} else if how == "finish" {
+				s.initErr = sc.FinishSession(fctx)
+			} else {
+				s.initErr = sc.FailSession(fctx, &lime.Reason{Code: 42, Description: "bye"})
+			}
+			s.initRet = true
+			x.Obs("server terminating call returned err=%v", s.initErr != nil)
+		}()
+		for i := 0; i < 3; i++ {
+			rt.Quiesce()
+			time.Sleep(6 * time.Second)
+		}
+		rt.Quiesce()
+		rt.EndExplore()
+		s.scState = sc.State()
+		s.scConnected = stp.Connected()
+		s.scRcvDone = isClosed(sc.RcvDone())
+		x.Obs("end sc=%v connected=%v", s.scState, s.scConnected)
+		_ = cc.Close()
+		for i := 0; i < 2; i++ {
+			rt.Quiesce()
+			time.Sleep(6 * time.Second)
+		}
+		rt.Quiesce()
+		s.snap = true
+		rt.Stop()
+	}
+}
+
+func stalledPeerFinal(x *harness.X, res *rt.Result) {
+	if res.Crash != "" {
+		x.Failf("crash:"+res.CrashSite, "%s", strings.SplitN(res.Crash, "\n", 2)[0])
+		return
+	}
+	s, _ := x.Vars["st"].(*st)
+	if s == nil || !s.snap {
+		return
+	}
+	tag := s.who + ":" + s.kind
+	hist := fmt.Sprintf("[%s; %s]", tag, strings.Join(x.Log(), " | "))
+	if !s.initRet {
+		x.Failf("initiator-blocked:"+tag, "the terminating call never returned %s", hist)
+		return
+	}
+	if !strings.Contains(s.who, "server-close") && s.scState != lime.SessionStateFinished && s.scState != lime.SessionStateFailed {
+		x.Failf("initiator-state:"+tag, "the server ended the session but its state is %v %s", s.scState, hist)
+	}
+	if s.scConnected || (s.sconn != nil && !s.sconn.IsClosed()) {
+		x.Failf("initiator-connection-open:"+tag, "the terminating call returned but the server's connection is still open %s", hist)
+	}
+	if !s.scRcvDone || !s.srvConsumerEnded {
+		x.Failf("initiator-streams:"+tag, "server receiver done=%v, stream consumer returned=%v %s", s.scRcvDone, s.srvConsumerEnded, hist)
+	}
+	for _, g := range res.Alive {
+		if g.Name == "main" {
+			continue
+		}
+		x.Failf("goroutine-left:"+g.Name+"["+g.PendTag()+"]:"+tag, "goroutine %s (%s) is left behind after both channels were closed %s", g.Name, g.PendTag(), hist)
+	}
+}
+
 // topBody: termination through the high-level Client.Close / Server.Close over
 // the real TCP transport (virtual pipes) and the in-process transport.
 func topBody(kind, who string) func(x *harness.X) {
@@ -596,10 +702,15 @@ func main() {
 			scs = append(scs, harness.Scenario{Name: fmt.Sprintf("served/%s/%s", kind, who), Opt: topOpt, Quick: 1, Thorough: 2, Prune: false, Body: servedBody(kind, who), Final: servedFinal})
 		}
 	}
+	for _, kind := range []string{"inproc", "tcp", "ws"} {
+		for _, how := range []string{"finish", "fail", "close"} {
+			scs = append(scs, harness.Scenario{Name: fmt.Sprintf("chan/%s/server-%s/peer-not-consuming", kind, how), Opt: topOpt, Quick: 1, Thorough: 2, Prune: false, Body: stalledPeerBody(kind, how), Final: stalledPeerFinal})
+		}
+	}
 	harness.Main(harness.Check{
 		Property:  "C13",
 		Level:     "model_checking",
-		Rule:      "initiator {client finish, server finish, server fail, server finish/fail issued by the server's only consumer while the client keeps streaming} x transport {in-process (queue 0/1), TCP over virtual pipe, WebSocket (gorilla, real opening handshake) over virtual pipe} x channel buffer {0,1} x {idle, one message in flight each way}; both sides keep draining their streams; the observer closes its channel when its receiver is done; plus top-level scenarios: a real Client and a real Server (handlers registered, idle or one message in flight each way), ended by Client.Close or by Server.Close, after which the other endpoint is closed too and nothing at all may be left (the session brand new or two seconds old); and served scenarios: a real Server serving one client channel, session new or two seconds old, ended by the client finishing or by Server.Close, the client's terminal state and streams observed; all schedules within the deviation bound (delay bounding); distinct outcome = distinct observation log",
+		Rule:      "initiator {client finish, server finish, server fail, server finish/fail issued by the server's only consumer while the client keeps streaming} x transport {in-process (queue 0/1), TCP over virtual pipe, WebSocket (gorilla, real opening handshake) over virtual pipe} x channel buffer {0,1} x {idle, one message in flight each way}; both sides keep draining their streams; the observer closes its channel when its receiver is done; plus top-level scenarios: a real Client and a real Server (handlers registered, idle or one message in flight each way), ended by Client.Close or by Server.Close, after which the other endpoint is closed too and nothing at all may be left (the session brand new or two seconds old); and served scenarios: a real Server serving one client channel, session new or two seconds old, ended by the client finishing or by Server.Close, the client's terminal state and streams observed; and a server ending the session with a one-second budget while the peer application consumes nothing (64-byte pipe / in-process queue 0-1), the server's own end observed (also: the server application closing its channel while one of its sends is blocked on that peer); all schedules within the deviation bound (delay bounding); distinct outcome = distinct observation log",
 		Assume:    []string{"the WebSocket listener's HTTP server is not part of the exploration: upgraded connections are handed to the real websocketTransport (verif hook)", "the serving side answers a finishing request the way Server.handleChannel does (FinishSession when the receiver is done)"},
 		Scenarios: scs,
 	})
